@@ -107,6 +107,7 @@ def worker_main(pid, tier, seed, k, n, outfile):
     sh = Shard(tier, int(seed), int(k), int(n))
     t0 = time.time()
     entered = {}
+    lines = set()
     try:
         if getattr(mod, 'COUNT_ENTRIES', True):
             # reach evidence: which functions of the package this shard's workload entered (PY_START events, tool id 1)
@@ -123,7 +124,16 @@ def worker_main(pid, tier, seed, k, n, outfile):
                 return mon.DISABLE          # the set of entered functions is what is needed: first entry only, no further cost
 
             mon.register_callback(1, mon.events.PY_START, on_start)
-            mon.set_events(1, mon.events.PY_START)
+            events = mon.events.PY_START
+            if os.environ.get('VERIF_LINECOV'):
+                # optional line coverage of the package under this check's workload (first hit only, then DISABLEd)
+                def on_line(code, line):
+                    if code.co_filename.startswith(pkg):
+                        lines.add((os.path.relpath(code.co_filename, pkg), line))
+                    return mon.DISABLE
+                mon.register_callback(1, mon.events.LINE, on_line)
+                events |= mon.events.LINE
+            mon.set_events(1, events)
         mod.run_shard(sh)
     except BaseException:
         sh.inconclusive.append('worker %s/%s crashed: %s' % (k, n, traceback.format_exc()[-1500:]))
@@ -134,6 +144,8 @@ def worker_main(pid, tier, seed, k, n, outfile):
             except Exception:
                 pass
             sh.sets['package functions entered'] = set(entered)
+            if lines:
+                sh.sets['package lines executed'] = lines
     sh.notes['wall_s_%s' % k] = round(time.time() - t0, 2)
     with open(outfile, 'wb') as f:
         pickle.dump(sh, f)
@@ -286,6 +298,11 @@ def main(argv):
             replay_paths.append(path)
             print('VIOLATION property=%s replay=%s' % (pid, path))
             print('   key=%s: %s' % (v['key'], str(v['what'])[:600]))
+    if os.environ.get('VERIF_LINECOV') and m.sets.get('package lines executed'):
+        cov_dir = os.path.join(tempfile.gettempdir(), 'verif-linecov')
+        os.makedirs(cov_dir, exist_ok=True)
+        with open(os.path.join(cov_dir, pid + '.json'), 'w') as f:
+            json.dump(sorted(m.sets.pop('package lines executed')), f)
     wall = time.time() - t0
     verdict = 'violated' if unknown else ('inconclusive' if m.inconclusive else 'held')
     level = getattr(mod, 'LEVEL', 'exploration')
